@@ -91,12 +91,22 @@ var ratDen = []int64{3, 6, 7, 9, 11, 13}
 
 // drawPriceM draws a positive price mantissa from labelled classes.
 func (g *Gen) drawPriceM(t *rapid.T, label string) *big.Int {
+	if g.W.Extreme && pct(t, 12, label+"-extreme") {
+		g.label("extreme:price")
+		if pct(t, 50, label+"-extreme-low") {
+			return bi(int64(rapid.IntRange(1, 9).Draw(t, label+"-xlow")))
+		}
+		return bmul(pow10(rapid.IntRange(7, 18).Draw(t, label+"-xpow")), E18)
+	}
 	switch uni(t, label+"-class", 10) {
 	case 0, 1, 2: // small integers
 		return bmul(bi(int64(rapid.IntRange(1, 5).Draw(t, label+"-int"))), E18)
-	case 3, 4: // non-terminating ratios n/d truncated to 18 places
+	case 3, 4: // non-terminating ratios n/d truncated (or rounded up) to 18 places
 		n := int64(rapid.IntRange(1, 20).Draw(t, label+"-n"))
 		d := pick(t, label+"-d", ratDen)
+		if pct(t, 40, label+"-roundup") {
+			return ceilDiv(bmul(bi(n), E18), bi(d))
+		}
 		return floorDiv(bmul(bi(n), E18), bi(d))
 	case 5: // halves/tenths
 		return bmul(bi(int64(rapid.IntRange(1, 50).Draw(t, label+"-tenth"))), pow10(17))
@@ -114,6 +124,10 @@ func (g *Gen) drawPriceM(t *rapid.T, label string) *big.Int {
 
 // drawAmount draws a positive amount from labelled classes.
 func (g *Gen) drawAmount(t *rapid.T, label string) *big.Int {
+	if g.W.Extreme && pct(t, 12, label+"-extreme") {
+		g.label("extreme:amount")
+		return bmul(bi(int64(rapid.IntRange(1, 255).Draw(t, label+"-xmant"))), new(big.Int).Lsh(bigOne, uint(rapid.IntRange(100, 192).Draw(t, label+"-xbits"))))
+	}
 	switch uni(t, label+"-class", 10) {
 	case 0, 1, 2, 3:
 		return bi(int64(rapid.IntRange(1, 50).Draw(t, label+"-small")))
@@ -414,7 +428,16 @@ func (g *Gen) genCreate(t *rapid.T, w *World, s *Snap, kind string) Op {
 			o.Schedules = append(o.Schedules, Sched{Release: rel, Weight: mstr(ws[i])})
 		}
 	}
+	if len(o.Schedules) >= 2 && pct(t, 4, "equal-release") {
+		j := 1 + uni(t, "equal-release-idx", len(o.Schedules)-1)
+		o.Schedules[j].Release = o.Schedules[j-1].Release
+		g.label("create:equal-release-times")
+	}
 	g.label(fmt.Sprintf("create:schedules=%d", minInt(n, 5)))
+	if g.W.Extreme && pct(t, 30, "extreme-auction") {
+		o.SellAmount = new(big.Int).Lsh(bi(int64(rapid.IntRange(1, 15).Draw(t, "xa-mant"))), uint(rapid.IntRange(180, 200).Draw(t, "xa-bits"))).String()
+		g.label("extreme:auction")
+	}
 	if kind == OpCreateBatch {
 		sp := DecM(dec(o.StartPrice))
 		// min bid price: below, equal or unrelated to start price
@@ -429,6 +452,9 @@ func (g *Gen) genCreate(t *rapid.T, w *World, s *Snap, kind string) Op {
 			o.MinPrice = mstr(m)
 		default:
 			o.MinPrice = mstr(g.drawPriceM(t, "min-price"))
+		}
+		if g.W.Extreme && pct(t, 40, "extreme-min-price") {
+			o.MinPrice = mstr(bi(int64(rapid.IntRange(1, 9).Draw(t, "xmin"))))
 		}
 		o.MaxRounds = uint32(pick(t, "max-rounds", []int{0, 0, 1, 1, 2, 3, 5, 30}))
 		o.Rate = mstr(g.drawRateM(t))
@@ -822,6 +848,25 @@ func (g *Gen) genPlaceBid(t *rapid.T, w *World, s *Snap) Op {
 				pM = badd(a.MinPriceM, pM)
 			}
 		}
+		if g.W.Extreme && a.SellAmt.BitLen() > 150 && pct(t, 50, "extreme-bid") {
+			g.label("extreme:bid")
+			if pct(t, 50, "extreme-bid-kind") {
+				// a huge worth bid at a price >= 1
+				pp := bmul(bi(int64(rapid.IntRange(1, 5).Draw(t, "xb-price"))), E18)
+				if pp.Cmp(a.MinPriceM) < 0 {
+					pp = bcopy(a.MinPriceM)
+				}
+				o.Price = mstr(pp)
+				o.BidType, o.CoinDenom = int32(types.BidTypeBatchWorth), a.PayDenom
+				o.CoinAmount = g.around(t, "xb-worth", cap).String()
+			} else {
+				// one coin at the minimum price pulls the clearing price down
+				o.Price = mstr(a.MinPriceM)
+				o.BidType, o.CoinDenom = int32(types.BidTypeBatchMany), a.SellDenom
+				o.CoinAmount = "1"
+			}
+			return o
+		}
 		o.Price = mstr(pM)
 		var qty *big.Int
 		switch uni(t, "batch-qty-mode", 6) {
@@ -917,7 +962,7 @@ func (g *Gen) perturbBid(t *rapid.T, w *World, s *Snap, a *Auc, o *Op) {
 }
 
 func (g *Gen) genModifyBid(t *rapid.T, w *World, s *Snap) Op {
-	a := g.bidTarget(t, s, "mod-auction", true)
+	a := g.bidTarget(t, s, "mod-auction", !pct(t, 15, "mod-any-type"))
 	bids := s.BidsOf(a.ID)
 	if len(bids) == 0 {
 		// nothing to modify: aim at a missing bid (must be rejected) or place one instead
